@@ -104,6 +104,33 @@ def chain_invariant_native(vc):
         check("after_op")
 
 
+@bounded("C03", "integer_valued_logprob_native", native_runs=12)
+def integer_valued_logprob_native(vc):
+    """a log-density that hands back Python ints where its value is integral (`return 0` on a flat top) -- at the starting
+    point(s) and later: what is recorded is still the value at the recorded sample, not its integer part"""
+    kind = vc.choice("sampler", ["gibbs", "pca", "hmc", "ensemble", "metropolis"])
+    d = vc.int("d", lo=1, hi=3)
+    T = vc.choice("temperature", [1.0, 2.5])
+    seed = vc.int("seed", lo=0, hi=10 ** 6)
+    rng = np.random.default_rng(seed)
+    post = Posterior("plateau", d, rng)
+    post.scale = post.scale * 2.0            # every start lies on the flat top
+    if kind == "ensemble":
+        T = 1.0
+    ch = make_sampler(kind, post, d, rng, temperature=T, seed=seed, epsilon=0.3)
+    vc.inputs["starts_on_flat_top"] = bool(all(v == 0.0 for _, v in post.calls))
+    beta = 1.0 / T
+    for n in (0, 25, 25):
+        quiet(ch.advance, n)
+        X, P = stored_points(ch)
+        ok = len(X) == len(P) and all(abs(P[k] - beta * post.f(X[k])) <= 1e-9 * max(1.0, abs(beta * post.f(X[k]))) for k in range(len(P)))
+        vc.ensures("logprob_is_beta_F_of_sample_for_integer_valued_returns", bool(ok))
+        if kind == "ensemble":
+            wp = np.array([post.f(x) for x in ch.walker_positions])
+            vc.ensures("walker_logprob_is_F_of_walker_for_integer_valued_returns", bool(np.allclose(wp, ch.walker_probs, rtol=1e-9, atol=1e-12)))
+    vc.inputs["left_flat_top"] = bool(any(v != 0.0 for _, v in post.calls))
+
+
 @bounded("C03", "shared_inputs_native", native_runs=20)
 def shared_inputs_native(vc):
     """samplers built from the same input arrays evolve independently and leave the arrays unchanged"""
